@@ -274,6 +274,7 @@ NoResendAfterRecorded == \A q \in posts : ~q.after
 ServerErrorKeeps == [][\A u \in Uploaders : (pc[u] = "UP_post" /\ pc'[u] = "UP_unlock") => ready'[wk[u]] = ready[wk[u]]]_vars
 ClientErrorDiscards == [][\A u \in Uploaders : (pc[u] = "UP_rm4xx" /\ pc'[u] # "UP_rm4xx" /\ alive'[u]) =>
                              (ready'[wk[u]] = Absent /\ uploaded'[wk[u]] = uploaded[wk[u]])]_vars
+NoLockLeft == (Quiet /\ NoKills) => \A w \in Weeks : ~lock[w]
 MarkerOnlyAfterAck == \A w \in Weeks : uploaded[w].st = "file" => \E a \in acks : a.w = w
 (* without crashes and with an answering server every uploadable week is eventually acknowledged exactly once *)
 EventuallyOnce == <>(\A w \in Weeks : Cardinality({a \in acks : a.w = w}) = 1)
